@@ -14,7 +14,6 @@ mod workload;
 use ckb_indexer::verif::VerifIndexer;
 use ckb_types::core::BlockView;
 use ckb_types::prelude::*;
-use keys::Method;
 use model::{H, Model};
 use serde_json::{Value, json};
 use std::collections::{BTreeMap, HashSet, VecDeque};
@@ -157,12 +156,24 @@ impl Hist {
             224 => "Header",
             _ => "unknown",
         };
+        // ConsumedOutPoint rows above the tip: left behind by rollback() (it restores the cell
+        // but does not delete the row). They are invisible to every query, rewritten by the
+        // next block of that height and removed by a later prune, so C18 does not demand their
+        // absence: they are excluded from the comparison and counted as an observation.
+        let tip_n = self.tg.rc.get(&tip).number;
+        let stale = |kv: &(Vec<u8>, Vec<u8>)| kv.0.first() == Some(&32) && kv.0.len() >= 9 && u64::from_be_bytes(kv.0[1..9].try_into().unwrap()) > tip_n;
+        let n_stale = d1.iter().filter(|kv| stale(kv)).count() as u64;
+        if n_stale > 0 {
+            r.count("obs.rollback_checks_seeing_consumed_out_point_rows_above_the_tip");
+            r.count_n("obs.consumed_out_point_rows_above_the_tip", n_stale);
+        }
+        let d0: Vec<(Vec<u8>, Vec<u8>)> = d0.into_iter().filter(|kv| !stale(kv)).collect();
+        let d1: Vec<(Vec<u8>, Vec<u8>)> = d1.into_iter().filter(|kv| !stale(kv)).collect();
+        r.count_n("rollback_checks.rows_compared", d0.len() as u64);
         let s0: HashSet<&(Vec<u8>, Vec<u8>)> = d0.iter().collect();
         let s1: HashSet<&(Vec<u8>, Vec<u8>)> = d1.iter().collect();
         let mut lost: BTreeMap<&'static str, Vec<String>> = BTreeMap::new();
         let mut added: BTreeMap<&'static str, Vec<String>> = BTreeMap::new();
-        let inputs: HashSet<Vec<u8>> = b.transactions().iter().skip(1).flat_map(|t| t.input_pts_iter().map(|op| op.as_slice().to_vec()).collect::<Vec<_>>()).collect();
-        let mut leftovers = 0u64;
         for kv in d0.iter().filter(|kv| !s1.contains(kv)) {
             let p = kv.0.first().copied().unwrap_or(255);
             if pruned && matches!(p, 32 | 192 | 224) {
@@ -172,16 +183,7 @@ impl Hist {
         }
         for kv in d1.iter().filter(|kv| !s0.contains(kv)) {
             let p = kv.0.first().copied().unwrap_or(255);
-            // a ConsumedOutPoint row of the rolled-back block itself: invisible to every query,
-            // deleted by a later prune — recorded as an observation, not demanded by C18
-            if p == 32 && kv.0.len() == 1 + 8 + 36 && kv.0[1..9] == b.number().to_be_bytes() && inputs.contains(&kv.0[9..]) {
-                leftovers += 1;
-                continue;
-            }
             added.entry(name(p)).or_default().push(format!("{}=>{}", vbase::hex(&kv.0), vbase::hex(&kv.1)));
-        }
-        if leftovers > 0 {
-            r.count_n("obs.rollback_leaves_consumed_out_point_rows_of_the_rolled_back_block", leftovers);
         }
         if self.assert && (!lost.is_empty() || !added.is_empty()) {
             let kinds: Vec<&str> = lost.keys().chain(added.keys()).cloned().collect::<std::collections::BTreeSet<_>>().into_iter().collect();
@@ -301,8 +303,8 @@ fn run_history(seed: u64, hi: u64, tier: Tier, deadline: Instant, r: &mut Report
     let tg = TreeGen::new(&gi, cfg, rng.next_u64());
     let keep_num = rng.range(4, 20);
     let prune_interval = rng.range(1, 8);
-    let n_blocks = tier.pick(45 + rng.below(50), 90 + rng.below(160));
-    let fork_pm = 120 + rng.below(200);
+    let n_blocks = tier.pick(60 + rng.below(80), 100 + rng.below(200));
+    let fork_pm = 70 + rng.below(130);
     let dir = vnode::node::scratch_dir().join(format!("indexer-{hi}"));
     let idx = VerifIndexer::new(&dir, keep_num, prune_interval);
     let info = json!({"history": hi, "window": [params.window.0, params.window.1], "keep_num": keep_num, "prune_interval": prune_interval,
@@ -319,12 +321,14 @@ fn run_history(seed: u64, hi: u64, tier: Tier, deadline: Instant, r: &mut Report
         assert: true,
         info,
         models: VecDeque::new(),
-        keys_per_tip: tier.pick(26, 40),
-        keys_per_step: tier.pick(5, 8),
+        keys_per_tip: tier.pick(40, 48),
+        keys_per_step: tier.pick(8, 10),
     };
     r.count("histories");
     hst.sync(r, keyset);
     let mut made = 0u64;
+    let mut deep_done = false;
+    let mut quiet_until = 0u64;
     while made < n_blocks {
         if Instant::now() > deadline {
             r.count("histories_cut_by_budget");
@@ -334,18 +338,22 @@ fn run_history(seed: u64, hi: u64, tier: Tier, deadline: Instant, r: &mut Report
         let tip_n = hst.tg.rc.get(&tip).number;
         let safe_min = hst.hi_water.saturating_sub(keep_num);
         let mut parent = tip;
-        if tip_n > 0 && rng.chance(fork_pm, 1000) {
-            if deep && hst.hi_water > keep_num + 4 && rng.chance(120, 1000) && tip_n > 1 {
-                // beyond the retention (observation only)
-                let lo = safe_min.saturating_sub(1 + rng.below(5)).min(tip_n - 1);
-                parent = hst.tg.rc.ancestor_at(&tip, lo).unwrap();
-                r.count("gen.forks_beyond_retention");
-            } else if tip_n > safe_min {
-                let maxd = tip_n - safe_min;
-                let d = if rng.chance(150, 1000) { maxd } else { 1 + rng.below(maxd.min(8)) };
-                parent = hst.tg.rc.ancestor_at(&tip, tip_n - d).unwrap();
-                r.count("gen.forks");
-            }
+        // while the builder's branch is still behind the indexer's (stale) tip, fork less often
+        // so that most branches grow long enough to be followed
+        let behind = hst.idx_tip().map(|(n, x)| tip_n <= n && x != tip).unwrap_or(false);
+        let fpm = if made < quiet_until { 0 } else if behind { fork_pm / 4 } else { fork_pm };
+        if deep && !deep_done && made >= n_blocks / 2 && hst.hi_water > keep_num + 6 && tip_n > 1 {
+            // one reorg deeper than the retention (observation only from there on)
+            let lo = safe_min.saturating_sub(1 + rng.below(4)).min(tip_n - 1);
+            parent = hst.tg.rc.ancestor_at(&tip, lo).unwrap();
+            deep_done = true;
+            quiet_until = made + (hst.hi_water - lo) + 3;
+            r.count("gen.forks_beyond_retention");
+        } else if tip_n > 0 && rng.chance(fpm, 1000) && tip_n > safe_min {
+            let maxd = tip_n - safe_min;
+            let d = if rng.chance(150, 1000) { maxd } else { 1 + rng.below(maxd.min(8)) };
+            parent = hst.tg.rc.ancestor_at(&tip, tip_n - d).unwrap();
+            r.count("gen.forks");
         }
         let k = rng.usize_below(4);
         let mut extras = hst.wl.gen_txs(&hst.tg, &mut rng, &parent, k);
@@ -420,8 +428,8 @@ fn main() {
         panic_store().lock().unwrap().insert(thread_key(), format!("{loc} :: {msg}"));
     }));
     let mut report = Report::new("C18", "exploration", &args, RULE);
-    let n_hist = args.get_u64("histories", args.tier.pick(12, 96));
-    let workers = args.get_u64("workers", args.tier.pick(6, 8)).max(1);
+    let n_hist = args.get_u64("histories", args.tier.pick(48, 600));
+    let workers = args.get_u64("workers", args.tier.pick(8, 10)).max(1);
     let deadline = Instant::now() + Duration::from_secs(args.get_u64("budget_s", args.tier.pick(55, 780)));
     let only: Option<u64> = args.extra.get("only").and_then(|s| s.parse().ok());
     let mut keyset: HashSet<u64> = HashSet::new();
@@ -467,7 +475,7 @@ fn main() {
     report.assume("`script_len_range` is taken over len(code_hash)+len(hash_type)+len(args) of the filter-side script, 0 when the cell has no type script (observed; the documentation does not define it)");
     report.assume("script_search_mode=partial may be rejected by this module (documented as prefix | exact); if it is answered the answer must be the partial match");
     report.assume("the driver mirrors IndexerSyncService::try_loop_sync: when the main chain has no block at indexer_tip+1 the indexer stays where it is (possibly on a stale fork); answers are then compared with the model of the indexer's own tip");
-    report.assume("ConsumedOutPoint rows of a rolled-back block that rollback() leaves behind are invisible to every query and removed by a later prune: counted as an observation, not a violation");
+    report.assume("ConsumedOutPoint rows above the indexer tip (rollback() restores the consumed cell but leaves the row behind) are invisible to every query, rewritten by the next block of that height and removed by a later prune: excluded from the byte-exact store comparison and counted as an observation");
     let code = report.finish(None);
     vnode::node::exit(code)
 }
